@@ -833,11 +833,10 @@ fn ws_scenario(idx: u64, r: &mut Rng, l: &mut Local) {
             }
         }
         sent.extend_from_slice(&data);
-        let mut ftries = 0;
-        loop {
-            ftries += 1;
-            match wrapped.flush() { Ok(()) => break, Err(e) if e.kind() == std::io::ErrorKind::WouldBlock && ftries < 100_000 => {} Err(_) => break }
-        }
+        // the driver's discipline: one flush after the data has been handed over, nothing more
+        match wrapped.flush() { Ok(()) => {} Err(e) if e.kind() == std::io::ErrorKind::WouldBlock => {} Err(_) => return }
+        // and, like the driver loop, a few polls of read() before the next write
+        for _ in 0..r.below(4) { let _ = wrapped.read(&mut buf); }
     }
     // the driver loop keeps calling read(); frames still queued inside the websocket (the underlying
     // write would have blocked) are pushed out by those calls
@@ -846,8 +845,8 @@ fn ws_scenario(idx: u64, r: &mut Rng, l: &mut Local) {
     let mut spins = 0;
     while quiet < 20 && spins < 200_000 {
         spins += 1;
+        // reads only: the driver never calls flush again once a write has been reported complete
         let _ = wrapped.read(&mut buf);
-        let _ = wrapped.flush();
         let now_len = st.lock().unwrap().from_client.len();
         if now_len == last_len { quiet += 1; } else { quiet = 0; last_len = now_len; }
     }
